@@ -38,6 +38,10 @@ def outcome_alphabet(nmax, rich):
                 out.append('map:' + m + ':7')            # same reply for all -> grouped bounce
                 if n >= 3:
                     out.append('map:' + m + ':7,8,7')    # equal replies separated by a different one
+            if rich and n >= 2 and len(set(m)) >= 2:
+                out.append('rmap:' + m)                  # same results, mapping iterated in another order than the envelope
+            if rich and n >= 2 and (m.count('p') >= 2 or m.count('t') >= 2) and len(set(m)) == 1:
+                out.append('rmap:' + m)
         if rich:
             out.append('seq:' + 'otp'[:n] if n <= 3 else 'seq:otpo')
     return out
@@ -67,7 +71,7 @@ def families(prop, tier):
                     fams.append(dict(name='sched-%s-%dx%d-b%s' % (be, nm, nr, bo[0]), mode='dfs', depth=7 if q else 9,
                                      budget=500 if q else 40000,
                                      cfg=dict(backend=be, gate_store=True, nmsgs=nm, nrcpt=nr, backoff=bo,
-                                              outcomes=['ok', 'T1', 'map:ot'] if nr > 1 else ['ok', 'T1'])))
+                                              outcomes=['ok', 'T1', 'map:ot', 'map:tt'] if nr > 1 else ['ok', 'T1', 'map:t'])))
                     fams.append(dict(name='walk-%s-%dx%d-b%s' % (be, nm, nr, bo[0]), mode='walk', depth=30, budget=60 if q else 3000,
                                      cfg=dict(backend=be, gate_store=True, nmsgs=nm + 1, nrcpt=nr, backoff=bo + [None],
                                               outcomes=['ok', 'T1', 'P2', 'map:ot', 'map:to', 'X'] if nr > 1 else ['ok', 'T1', 'P2', 'X'])))
@@ -79,18 +83,18 @@ def families(prop, tier):
                     fams.append(dict(name='timer-%s-p%s%s-f%d' % (be, pools[0], pools[1], fl), mode='dfs', depth=7 if q else 9,
                                      budget=400 if q else 30000,
                                      cfg=dict(backend=be, gate_store=(be == 'gdict'), nmsgs=2, nrcpt=1, backoff=[5, 5, None], flush=fl,
-                                              store_pool=pools[0], relay_pool=pools[1], outcomes=['ok', 'T1'])))
+                                              store_pool=pools[0], relay_pool=pools[1], outcomes=['ok', 'T1', 'map:t'])))
         fams.append(dict(name='timer-equal-due', mode='dfs', depth=8, budget=400 if q else 20000,
                          cfg=dict(backend='dict', gate_store=False, nmsgs=3, nrcpt=1, backoff=[5, 0, None], flush=1,
                                   outcomes=['ok', 'T1'])))
     # F5: enqueue racing the start-up scan, duplicate announcements from storage wait(), both pools bounded
-    if prop in ('C03', 'C12', 'C13'):
+    if prop in ('C03', 'C12', 'C13', 'C01'):
         fams.append(dict(name='startrace-gdict', mode='dfs', depth=8 if q else 10, budget=600 if q else 40000,
                          cfg=dict(backend='gdict', gate_store=True, release_startup=False, nmsgs=1, nrcpt=1, backoff=[0, None],
                                   outcomes=['ok', 'P2', 'T1'])))
         fams.append(dict(name='announce-gdict', mode='dfs', depth=7 if q else 9, budget=600 if q else 40000,
                          cfg=dict(backend='gdict', gate_store=True, announce=True, nmsgs=1, nrcpt=2, backoff=[0, None],
-                                  outcomes=['ok', 'T1', 'map:ot'])))
+                                  outcomes=['ok', 'T1', 'map:ot', 'map:oo', 'map:op'])))
         fams.append(dict(name='announce-gdict-b3', mode='dfs', depth=8 if q else 10, budget=1200 if q else 40000,
                          cfg=dict(backend='gdict', gate_store=True, announce=True, nmsgs=1, nrcpt=1, backoff=[3, None],
                                   outcomes=['ok', 'T1'])))
@@ -137,6 +141,11 @@ def families(prop, tier):
         fams.append(dict(name='pools-dict', mode='dfs', depth=8 if q else 10, budget=600 if q else 40000,
                          cfg=dict(backend='dict', gate_store=False, nmsgs=3, nrcpt=1, backoff=[0, 2, None], store_pool=1, relay_pool=1,
                                   outcomes=['ok', 'T1'])))
+    if prop in ('C13', 'C01'):
+        for sp in (1, 2):
+            fams.append(dict(name='bouncepool-dict', mode='dfs', depth=5, budget=400 if q else 20000,
+                             cfg=dict(backend='dict', gate_store=False, nmsgs=3, nrcpt=2, backoff=[0, None], store_pool=sp,
+                                      outcomes=['ok', 'P2', 'T1', 'map:pt', 'map:pp'])))
     # F4: bounce policy: null senders, factory returning None, headers only, failing bounces
     if prop in ('C13',):
         for extra in (dict(), dict(null_sender=[1]), dict(factory_none=True), dict(headers_only=True)):
